@@ -646,6 +646,14 @@ func vfLogged(f func()) []sched.Op {
 	return sched.StopLog()
 }
 
+func vfMutOps(ops []sched.Op) []sched.Op { return sched.Mutations(ops) }
+
+func vfUnmarshalStrict(b []byte, v any) error {
+	dec := json.NewDecoder(bytes.NewReader(b))
+	dec.DisallowUnknownFields()
+	return dec.Decode(v)
+}
+
 func vfShowOps(ops []sched.Op) string {
 	var s []string
 	for _, o := range ops {
